@@ -63,7 +63,7 @@ MUTATIONS = [
     dict(id="c08-factorization-subset-sort", file="cirkit/symbolic/circuit.py", old="sorted((sc.layer_scope(sli) for sli in sc.layer_inputs(sl)), key=_scope_sort_key)", new="sorted((sc.layer_scope(sli) for sli in sc.layer_inputs(sl)))", expect={"C08": ["R7a:cirkit.symbolic.circuit._scope_factorizations"]}),
     dict(id="c08-onesided-compat", file="cirkit/symbolic/circuit.py", old="    for scope in sfs1.keys() & sfs2.keys():\n        fs1, fs2 = sfs1[scope], sfs2[scope]\n", new="    for scope, fs1 in sfs1.items():\n        fs2 = sfs2.get(scope, None)\n        if fs2 is None:\n            return False\n", expect={"C08": ["R7c:cirkit.symbolic.circuit._are_compatible:one-sided"]}),
     dict(id="c08-rg-wrong-owner", file="cirkit/templates/region_graph/graph.py", old="            partition2_inputs = other.node_inputs(partition2)\n", new="            partition2_inputs = self.node_inputs(partition2)\n", expect={"C08": ["R7o:cirkit.templates.region_graph.graph.RegionGraph.is_compatible:self.node_inputs(partition2)"]}),
-    dict(id="c04-pairing-subset-sort", file=FUN, old="key=lambda sl: tuple(sorted(sc1.layer_scope(sl)))", new="key=sc1.layer_scope", expect={"C04": ["R7a:cirkit.symbolic.functional.multiply"]}),
+    dict(id="c04-pairing-subset-sort", file=FUN, old="key=lambda i: tuple(sorted(sc1.layer_scope(l1_inputs[i])))", new="key=lambda i: sc1.layer_scope(l1_inputs[i])", expect={"C04": ["R7a:cirkit.symbolic.functional.multiply"]}),
     dict(id="c04-kronecker-operands-swapped", file=OPS, old="KroneckerParameter(sl1.weight.shape, sl2.weight.shape), sl1.weight.ref(), sl2.weight.ref()", new="KroneckerParameter(sl1.weight.shape, sl2.weight.shape), sl2.weight.ref(), sl1.weight.ref()", expect={"C04": ["R2f:cirkit.symbolic.operators.multiply_sum_layers"]}),
     dict(id="c20-hmm-by-position", file="cirkit/templates/pgms.py", old="        input_sl = input_factories[ordering[i]](Scope([ordering[i]]), num_latent_states)\n", new="        input_sl = input_factories[i](Scope([ordering[i]]), num_latent_states)\n", expect={"C20": ["R13a:cirkit.templates.pgms.hmm:input_factories@Scope([ordering[i]])"]}, allow_others=True),
     dict(id="c20-tt-enumerate-offset", file="cirkit/templates/tensor_factorizations.py", old="for i, dim in enumerate(shape[1:-1], start=1)", new="for i, dim in enumerate(shape[2:-1], start=1)", expect={"C20": ["R13a:cirkit.templates.tensor_factorizations.tensor_train:shape[2:-1]"]}),
@@ -89,7 +89,7 @@ MUTATIONS = [
     dict(id="q-logpartition-none-index", quiet=True, file="cirkit/backend/torch/layers/input.py", old="        return torch.logsumexp(logits, dim=2).unsqueeze(dim=1)\n", new="        return torch.logsumexp(logits, dim=2)[:, None, :]\n", expect={}),
     dict(id="q-compat-keys-first", quiet=True, file="cirkit/symbolic/circuit.py", old="    for scope in sfs1.keys() & sfs2.keys():\n        fs1, fs2 = sfs1[scope], sfs2[scope]\n", new="    common = set(sfs1) & set(sfs2)\n    for scope in common:\n        fs1 = sfs1[scope]\n        fs2 = sfs2[scope]\n", expect={}),
     dict(id="q-factorization-frozenset-key", quiet=True, file="cirkit/symbolic/circuit.py", old="    return tuple(sorted(scope))\n", new="    return tuple(sorted(list(scope)))\n", expect={}),
-    dict(id="q-multiply-named-key", quiet=True, file=FUN, old="key=lambda sl: tuple(sorted(sc1.layer_scope(sl)))", new="key=lambda sl: sorted(sc1.layer_scope(sl))", expect={}),
+    dict(id="q-multiply-named-key", quiet=True, file=FUN, old="key=lambda i: tuple(sorted(sc1.layer_scope(l1_inputs[i])))", new="key=lambda i: sorted(sc1.layer_scope(l1_inputs[i]))", expect={}),
     dict(id="q-rg-compat-alias", quiet=True, file="cirkit/templates/region_graph/graph.py", old="            partition2_inputs = other.node_inputs(partition2)\n", new="            rg2 = other\n            partition2_inputs = rg2.node_inputs(partition2)\n", expect={}),
     dict(id="q-gaussian-conj-inline", quiet=True, file=OPS, old="    log_partition = sl.log_partition.ref() if sl.log_partition is not None else None\n    sl = GaussianLayer(", new="    log_partition = None\n    if sl.log_partition is not None:\n        log_partition = sl.log_partition.ref()\n    sl = GaussianLayer(", expect={}),
     dict(id="q-index-param-advanced-index", quiet=True, file=TNODES, old="        return torch.index_select(x, self.dim + 1, self._indices)\n", new="        return x.index_select(self.dim + 1, self._indices)\n", expect={}),
@@ -221,7 +221,7 @@ MUTATIONS += [
     dict(id="r4b-sum-permute", file=TINNER, old="        x = x.permute(0, 2, 1, 3).flatten(start_dim=2)\n        weight = self.weight()\n        return self.semiring.einsum(\n            \"fbi,foi->fbo\"", new="        x = x.permute(2, 0, 1, 3).flatten(start_dim=2)\n        weight = self.weight()\n        return self.semiring.einsum(\n            \"fbi,foi->fbo\"", expect={"C01": ["R4b:cirkit.backend.torch.layers.inner.TorchSumLayer:forward"]}, allow_others=True),
     dict(id="r4b-sum-einsum-letters", file=TINNER, old="            \"fbi,foi->fbo\", inputs=(x,), operands=(weight,), dim=-1, keepdim=True\n        )  # shape (F, B, K_o).\n\n    def sample", new="            \"fbi,fio->fbo\", inputs=(x,), operands=(weight,), dim=-1, keepdim=True\n        )  # shape (F, B, K_o).\n\n    def sample", expect={"C01": ["R4b:cirkit.backend.torch.layers.inner.TorchSumLayer:forward"]}, allow_others=True),
     dict(id="r4b-gaussian-unsqueeze", file=TINPUT, old="        mean = self.mean().unsqueeze(dim=1)  # (F, 1, K)", new="        mean = self.mean().unsqueeze(dim=2)  # (F, 1, K)", expect={"C01": ["R4b:cirkit.backend.torch.layers.input.TorchGaussianLayer:"]}, allow_others=True),
-    dict(id="r4b-constant-expand", file=TINPUT, old="        value = value.unsqueeze(dim=1).expand(value.shape[0], batch_size, value.shape[1])", new="        value = value.unsqueeze(dim=0).expand(value.shape[0], batch_size, value.shape[1])", expect={"C06": ["R4b:"], "C01": ["R4b:cirkit.backend.torch.layers.input.TorchConstantValueLayer:forward"]}),
+    dict(id="r4b-constant-expand", file=TINPUT, old="        value = value.unsqueeze(dim=1).expand(value.shape[0], batch_size, value.shape[1])", new="        value = value.unsqueeze(dim=0).expand(value.shape[0], batch_size, value.shape[1])", expect={"C11": ["R4q:"], "C06": ["R4b:"], "C01": ["R4b:cirkit.backend.torch.layers.input.TorchConstantValueLayer:forward"]}),
     dict(id="r4b-tucker-view", file=TOPT, old="            -1,\n            self.num_output_units,\n            *(self.num_input_units for _ in range(self.arity)),", new="            -1,\n            self.num_input_units,\n            *(self.num_input_units for _ in range(self.arity)),", expect={"C01": ["R4b:cirkit.backend.torch.layers.optimized.TorchTuckerLayer:forward"]}, allow_others=True),
     dict(id="r4b-tensordot-permute", file=TOPT, old="        x = x.permute(0, 1, 3, 2)", new="        x = x.permute(0, 1, 2, 3)", expect={"C01": ["R4b:cirkit.backend.torch.layers.optimized.TorchTensorDotLayer:forward"]}, allow_others=True),
     # R4c / R4q: marginal queries
@@ -272,7 +272,7 @@ MUTATIONS += [
     dict(id="r4l-kron-forward-order", file=TINNER, old="            y0 = y0.unsqueeze(dim=-1)  # (F, B, K, 1).\n            y1 = x[:, i].unsqueeze(dim=-2)  # (F, B, 1, Ki).", new="            y0 = y0.unsqueeze(dim=-2)  # (F, B, K, 1).\n            y1 = x[:, i].unsqueeze(dim=-1)  # (F, B, 1, Ki).", expect={"C01": ["R4l:cirkit.backend.torch.layers.inner.TorchKroneckerLayer:layout"]}, allow_others=True),
     dict(id="r4l-sum-flatten-order", file=TINNER, old="        x = x.permute(0, 2, 1, 3).flatten(start_dim=2)\n        weight = self.weight()\n        return self.semiring.einsum(\n            \"fbi,foi->fbo\"", new="        x = x.permute(0, 2, 3, 1).flatten(start_dim=2)\n        weight = self.weight()\n        return self.semiring.einsum(\n            \"fbi,foi->fbo\"", expect={"C01": ["R4l:cirkit.backend.torch.layers.inner.TorchSumLayer:layout"]}, allow_others=True),
     dict(id="r12b-tucker-pairing", file=TOPT, old="            tuple((0, 1, i + 2) for i in range(arity))", new="            tuple((0, 1, arity + 1 - i) for i in range(arity))", expect={"C02": ["R12b:cirkit.backend.torch.optimization.layers.apply_tucker"], "C01": ["R12b:cirkit.backend.torch.optimization.layers.apply_tucker"]}),
-    dict(id="r12b-einsum-flatten-order", patch="seeded/C03a/patch.diff", expect={"C02": ["R12b:cirkit.backend.torch.optimization.parameters.apply_sum_outer_prod_einsum"], "C03": ["R12b:cirkit.backend.torch.optimization.parameters.apply_sum_outer_prod_einsum"]}),
+    dict(id="r12b-einsum-flatten-order", patch="seeded/C03a/patch.diff", expect={"C01": ["R12b:"], "C02": ["R12b:cirkit.backend.torch.optimization.parameters.apply_sum_outer_prod_einsum"], "C03": ["R12b:cirkit.backend.torch.optimization.parameters.apply_sum_outer_prod_einsum"]}),
     dict(id="q-kron-forward-loop-names", file=TINNER, old="            y0 = y0.unsqueeze(dim=-1)  # (F, B, K, 1).\n            y1 = x[:, i].unsqueeze(dim=-2)  # (F, B, 1, Ki).", new="            y0 = y0[..., None]  # (F, B, K, 1).\n            y1 = x[:, i].unsqueeze(dim=2)  # (F, B, 1, Ki).", expect={}, quiet=True),
     dict(id="l2-kron-perm-inverse", patch="seeded/C04b/patch.diff", expect={"C04": ["L2:cirkit.symbolic.operators.multiply_kronecker_layers:permutation"]}),
     dict(id="l2-kron-perm-axes", file=OPS, old="axes=sum(((1 + a, 1 + a + arity) for a in range(arity)), start=(0,))", new="axes=sum(((1 + a + arity, 1 + a) for a in range(arity)), start=(0,))", expect={"C04": ["L2:cirkit.symbolic.operators.multiply_kronecker_layers:permutation"]}),
@@ -362,7 +362,7 @@ MUTATIONS += [
     # ---- wave-3 seeds as kept
     dict(id="w3-c02c-addressbook-prefix", patch="seeded/C02c/patch.diff", expect={"C01": ["R3g:"], "C02": ["R3g:"]}),
     dict(id="w3-c02d-stacked-sorted", patch="seeded/C02d/patch.diff", expect={"C01": ["R3g:"], "C02": ["R3g:"]}),
-    dict(id="w3-c03c-einsum-index-order", patch="seeded/C03c/patch.diff", expect={"C03": ["R12b:"], "C02": ["R12b:"]}),
+    dict(id="w3-c03c-einsum-index-order", patch="seeded/C03c/patch.diff", expect={"C01": ["R12b:"], "C03": ["R12b:"], "C02": ["R12b:"]}),
     dict(id="w3-c03d-integrate-topological-outputs", patch="seeded/C03d/patch.diff", expect={"C03": ["R7e:"]}),
     dict(id="w3-c06c-dtype-fold-key", patch="seeded/C06c/patch.diff", expect={"C06": ["R3d:"], "C02": ["R3d:"], "C13": ["R3d:"], "C17": ["R3d:"]}),
     dict(id="w3-c06d-evidence-repeat-view", patch="seeded/C06d/patch.diff", expect={"C06": ["R4x:"], "C01": ["R4x:"]}),
